@@ -519,7 +519,10 @@ class Fxp():
         # re store the value
         if restore_val and _old_val is not None and self.n_frac is not None:
             if self.scaled:
+                _complex_declared = self.vdtype == complex
                 self.set_val((_old_val / 2**_old_n_frac) * self.scale + self.bias)
+                if _complex_declared:
+                    self.vdtype = complex      # (a store by value takes the value type of the value: the declared format stays complex)
             else:
                 self.set_val(utils.scale_raw(_old_val, self.n_frac - _old_n_frac), raw=True)
         else:
